@@ -185,8 +185,9 @@ def normalise(desc, opts=()):
     if "--neutraln" in opts or "--neutralc" in opts:
         for ch in desc["chains"]:
             # old-style names of cap hydrogens that the requested neutral state does not have (HT3 ...)
-            # are outside pdb2pqr's name maps
-            ch.pop("altmod", None)
+            # are outside pdb2pqr's name maps; alternative heavy-atom names (OT1/OT2, CD) stay
+            if "altmod" in ch:
+                ch["altheavy"] = True
     heavy = 0
     for ch in desc["chains"]:
         if "window" in ch:
@@ -231,6 +232,17 @@ def structure_to_cif(s, cif):
                           xyz=r["xyz"], occ=1.0, b=10.0, elem=r["name"].lstrip("0123456789")[0], charge="", model=1,
                           label_seq=(r["group"][2] + 1) if r["group"][0] in ("chain", "na") else r["seq"]))  # fmt: skip
     return cifgen.cif_text(atoms), cmap
+
+
+def neutral_opts(draw, ff, opts):
+    """--neutraln / --neutralc (accepted with PARSE only) for runs that add atoms."""
+    out = []
+    if ff == "PARSE" and "--clean" not in opts and "--assign-only" not in opts:
+        if draw(st.integers(0, 3)) == 0:
+            out.append("--neutraln")
+        if draw(st.integers(0, 2)) == 0:
+            out.append("--neutralc")
+    return out
 
 
 def run_case(desc, ff, opts, **kw):
